@@ -15,13 +15,13 @@ def run(v, tier):
                       'instantiations that violate a metavariable constraint are judged by C02 (checker rejects), not here']
     pool = u['U1'] + [x['p'] for x in u['NU1']] + rng.sample([x['p'] for x in u['NU2S']], 200)
     gn = funcs.Gen(pi2v.SEED + 7, ids=(0, 1), notation=True)
-    pool += [gn.term(3) for _ in range(300 if quick else 4000)]
+    pool += [gn.term(3) for _ in range(300 if quick else 10000)]
     imps = [p for p in pool if p['t'] == 'imp'] + [N['or'](a, b) for a in rng.sample(pool, 12) for b in rng.sample(pool, 4)]
     cmds, meta = [], []
     def add(c, m):
         for interp in ('basic', 'stateful'):
             cmds.append(dict(c, interp=interp)); meta.append(dict(m, interp=interp))
-    n = 500 if quick else 6000
+    n = 500 if quick else 15000
     for _ in range(n):       # modus ponens: applicable by construction, near misses, non-implications
         l = rng.choice(imps)
         ante = l['l'] if l['t'] == 'imp' else N['neg'](l['d'][0][1])
@@ -38,7 +38,7 @@ def run(v, tier):
     # modus ponens near misses under notation: the antecedent and the premise are applications of the SAME definition that
     # differ in their key sets / the holes their arguments sit in / one argument (only the same mapping is applicable)
     small = u['U1'][:40]
-    for _ in range(150 if quick else 1500):
+    for _ in range(150 if quick else 4000):
         a, b, c = rng.choice(small), rng.choice(small), rng.choice(pool)
         dfn = rng.choice([N['and'](a, b)['p'], N['or'](a, b)['p'], N['equiv'](a, b)['p']])
         ante = pi2v.NINST(dfn, [(0, a), (1, b)])
